@@ -512,3 +512,17 @@ def oracle(run, pairs):
         for i, r in zip(wi, _woracle(run, [pairs[i] for i in wi])):
             res[i] = r
     return res
+
+_BREQ = ["From Coq Require Import List NArith Bool.",
+         "From MS Require Import Base.Bytes Base.Outcome Base.Prog Base.BufLevel Mp4.San Mp4.SanB Props.C10b.", "Open Scope N_scope."]
+THEOREMS = list(THEOREMS) + [
+    ("C10_level_b_refines_cursor", """forall (inp : input) (lenient : bool) (ms cap : N), 1 <= cap -> ilen inp <= I64MAX' -> ilen inp <= ms ->
+  forall (A : Type) (p : prog A),
+    fst (run (level_b inp lenient ms cap) p (lb_init None)) = fst (run (cursor inp lenient ms) p 0)"""),
+    ("C10_mp4_level_b_is_model", """forall (cfg : config) (lenient : bool) (ms : N) (inp : input) (fuel : nat),
+  ilen inp <= I64MAX' -> ilen inp <= ms ->
+  fst (fst (mp4_sanitize_b cfg lenient ms inp fuel None)) = mp4_sanitize cfg lenient ms inp fuel"""),
+]
+REQUIRES_FOR = dict(REQUIRES_FOR, C10_level_b_refines_cursor=_BREQ, C10_mp4_level_b_is_model=_BREQ)
+COQ_TARGETS = list(COQ_TARGETS) + ["theories/Props/C10b.vo"]
+COQCHK = list(COQCHK) + ["MS.Props.C10b"]
